@@ -7,36 +7,40 @@ EXTENDS Writers, Json, IOUtils
 Range(q) == {q[i] : i \in DOMAIN q}
 Traces == ndJsonDeserialize(IOEnv.TRACE_FILE)
 
-VARIABLES tid, l, writers, files, first, err
-tvars == <<tid, l, writers, files, first, err>>
+VARIABLES tid, l, writers, files, first, err, nlan
+tvars == <<tid, l, writers, files, first, err, nlan>>
 (* writers: handle -> [fmt, d]; files: path -> content id; first: Key -> content id of the first write with that key *)
 
 Clause(e) ==
     IF e.op = "new" THEN (IF e.exc # "None" THEN "C15.Total/new" ELSE "")
+    ELSE IF e.op = "edit" THEN (IF e.nl # nlan + 1 THEN "driver/edit" ELSE "")
     ELSE LET w == writers[e.w]
              skip == e.mode = "skip" /\ e.path \in DOMAIN files
-             x == F(w, e.kind)
-             k == Key(w, e.kind)
+             x == F(w, e.kind, nlan)
+             k == Key(w, e.kind, nlan)
          IN IF e.exc # "None" THEN "C15.Total/write"
             ELSE IF skip THEN (IF e.cid # files[e.path] THEN "C15.SkipUntouched" ELSE "")
             ELSE IF e.fmt # x.fmt THEN "C15.Format"
             ELSE IF e.copies # x.copies THEN "C15.NoAccumulation"
             ELSE IF e.pp # x.pp THEN "C15.Content/planning-problems"
+            ELSE IF e.nl # x.nl THEN "C15.CurrentScenario/lanelets"        \* the file shows the scenario as it is NOW
             ELSE IF x.fmt = "xml" /\ (e.nprobes < 8 \/ Range(e.digits) # {x.digits}) THEN "C15.OwnPrecision"   \* every probe number, wherever it is written
             ELSE IF k \in DOMAIN first /\ first[k] # e.cid THEN "C15.Deterministic"
             ELSE IF e.readback # 1 THEN "C15.ReadBack"
             ELSE ""
 
-TInit == tid \in 1..Len(Traces) /\ l = 1 /\ writers = <<>> /\ files = [p \in {} |-> 0] /\ first = [k \in {} |-> 0] /\ err = 0
+TInit == tid \in 1..Len(Traces) /\ l = 1 /\ writers = <<>> /\ files = [p \in {} |-> 0] /\ first = [k \in {} |-> 0] /\ err = 0 /\ nlan = 1
 TStep == /\ l <= Len(Traces[tid].ev)
          /\ LET e == Traces[tid].ev[l]
                 c == Clause(e)
             IN /\ err' = IF c = "" THEN err ELSE IF PrintT(<<"REJECT", tid, l, c>>) THEN err + 1 ELSE err
+               /\ nlan' = IF e.op = "edit" THEN e.nl ELSE nlan
                /\ IF e.op = "new"
                   THEN writers' = Append(writers, [fmt |-> e.fmt, d |-> e.d]) /\ UNCHANGED <<files, first>>
+                  ELSE IF e.op = "edit" THEN UNCHANGED <<writers, files, first>>
                   ELSE /\ UNCHANGED writers
                        /\ files' = [p \in DOMAIN files \cup {e.path} |-> IF p = e.path THEN e.cid ELSE files[p]]   \* adopt what is on disk
-                       /\ LET k == Key(writers[e.w], e.kind) IN
+                       /\ LET k == Key(writers[e.w], e.kind, nlan) IN
                           first' = IF k \in DOMAIN first \/ c # "" \/ (e.mode = "skip" /\ e.path \in DOMAIN files) THEN first
                                    ELSE [kk \in DOMAIN first \cup {k} |-> IF kk = k THEN e.cid ELSE first[kk]]
          /\ l' = l + 1 /\ UNCHANGED tid
